@@ -153,7 +153,7 @@ func check(args []string) int {
 		if *tier == "quick" {
 			*budget = envInt("VERIF_QUICK_S", 20)
 		} else {
-			*budget = envInt("VERIF_THOROUGH_S", 600)
+			*budget = envInt("VERIF_THOROUGH_S", 300)
 		}
 	}
 	start := time.Now()
